@@ -61,16 +61,19 @@ Example C09_window_straddling_data_and_crc :
 Proof. exact demo_straddle. Qed.
 
 (* --- atomic replacement ---------------------------------------------------------------------------------- *)
+(* a flush is a function copy -> bytes (what that write() stored in the temporary of that copy); landed chunks i is the
+   content of the temporary of copy i after all flushes; all_verified = the verification of EVERY copy succeeds *)
 
 Theorem C09_save_atomic : forall cs chunks crc f0 f', NoDup cs -> crash f0 (save_ops cs chunks crc) f' ->
   exists cs1 cs2, cs = cs1 ++ cs2 /\
-    (forall i, In i cs1 -> f' (Content i) = Some (concat chunks)) /\
-    (forall i, In i cs2 -> f' (Content i) = f0 (Content i)).
+    (forall i, In i cs1 -> f' (Content i) = Some (landed chunks i)) /\
+    (forall i, In i cs2 -> f' (Content i) = f0 (Content i)) /\
+    (cs1 <> [] -> all_verified cs chunks crc).
 Proof. exact save_atomic. Qed.
 Print Assumptions C09_save_atomic.
 
 Theorem C09_save_atomic_each : forall cs chunks crc f0 f' i, NoDup cs -> crash f0 (save_ops cs chunks crc) f' -> In i cs ->
-  f' (Content i) = f0 (Content i) \/ f' (Content i) = Some (concat chunks).
+  f' (Content i) = f0 (Content i) \/ (f' (Content i) = Some (landed chunks i) /\ all_verified cs chunks crc).
 Proof. exact save_atomic_each. Qed.
 Print Assumptions C09_save_atomic_each.
 
@@ -79,22 +82,39 @@ Theorem C09_save_frame : forall cs chunks crc f0 f', crash f0 (save_ops cs chunk
 Proof. exact save_frame. Qed.
 Print Assumptions C09_save_frame.
 
-Theorem C09_verify_guards_rename : forall cs chunks crc f0, NoDup cs -> cs <> [] -> verify_ok (concat chunks) crc = false ->
+(* a rename of ANY copy happens only if the verification of EVERY copy succeeded: if the copy j -- first, middle or last --
+   fails its verification, the run stops and no crash state has a replaced copy *)
+Theorem C09_verify_all_guard : forall cs chunks crc f0 j, NoDup cs -> In j cs -> verify_ok (landed chunks j) crc = false ->
   exec f0 (save_ops cs chunks crc) = None /\
   forall f', crash f0 (save_ops cs chunks crc) f' -> forall i, f' (Content i) = f0 (Content i).
-Proof. exact verify_guards_rename. Qed.
-Print Assumptions C09_verify_guards_rename.
+Proof. exact verify_all_guard. Qed.
+Print Assumptions C09_verify_all_guard.
 
-Theorem C09_save_complete : forall cs chunks crc f0, NoDup cs -> verify_ok (concat chunks) crc = true ->
+Theorem C09_renamed_implies_all_verified : forall cs chunks crc f0 f' i, NoDup cs -> crash f0 (save_ops cs chunks crc) f' ->
+  f' (Content i) <> f0 (Content i) -> all_verified cs chunks crc.
+Proof. exact renamed_implies_all_verified. Qed.
+Print Assumptions C09_renamed_implies_all_verified.
+
+(* the join loop of the model counts every thread; the loop `fail = retval != 0` would not *)
+Example C09_join_counts_every_copy : join_fail [false; true] = true /\ join_fail_last [false; true] = false.
+Proof. exact mutant_join_misses. Qed.
+
+Example C09_fault_on_first_copy :
+  verify_ok (landed fault_flushes 0%nat) fault_crc = false /\ verify_ok (landed fault_flushes 1%nat) fault_crc = true /\
+  exec f_demo (save_ops [0; 1]%nat fault_flushes fault_crc) = None /\
+  forall f', crash f_demo (save_ops [0; 1]%nat fault_flushes fault_crc) f' -> forall i, f' (Content i) = f_demo (Content i).
+Proof. exact fault_on_first_copy_blocks_every_rename. Qed.
+
+Theorem C09_save_complete : forall cs chunks crc f0, NoDup cs -> all_verified cs chunks crc ->
   exists f1, exec f0 (save_ops cs chunks crc) = Some f1 /\
-    (forall i, In i cs -> f1 (Content i) = Some (concat chunks) /\ f1 (Tmp i) = None) /\
+    (forall i, In i cs -> f1 (Content i) = Some (landed chunks i) /\ f1 (Tmp i) = None) /\
     (forall q, (forall i, In i cs -> q <> Tmp i /\ q <> Content i) -> f1 q = f0 q).
 Proof. exact save_complete. Qed.
 Print Assumptions C09_save_complete.
 
 Theorem C09_save_after_crash : forall cs chunks crc chunks2 crc2 f0 fc, NoDup cs -> crash f0 (save_ops cs chunks crc) fc ->
-  verify_ok (concat chunks2) crc2 = true ->
-  exists f1, exec fc (save_ops cs chunks2 crc2) = Some f1 /\ forall i, In i cs -> f1 (Content i) = Some (concat chunks2) /\ f1 (Tmp i) = None.
+  all_verified cs chunks2 crc2 ->
+  exists f1, exec fc (save_ops cs chunks2 crc2) = Some f1 /\ forall i, In i cs -> f1 (Content i) = Some (landed chunks2 i) /\ f1 (Tmp i) = None.
 Proof. exact save_after_crash. Qed.
 Print Assumptions C09_save_after_crash.
 
@@ -102,6 +122,7 @@ Theorem C09_writer_verifies : forall P, bytes P -> verify_ok (P ++ sputble32 (cr
 Proof. exact writer_verifies. Qed.
 Print Assumptions C09_writer_verifies.
 
+(* the writer hands the same buffer to every copy: without a write fault all copies end byte-identical *)
 Theorem C09_writer_save_complete : forall cs flushes f0, NoDup cs -> bytes (concat flushes) ->
   exists f1, exec f0 (save_ops cs (writer_chunks flushes) (writer_crc flushes)) = Some f1 /\
     forall i, In i cs -> f1 (Content i) = Some (concat flushes ++ sputble32 (crc32c_spec 0 (concat flushes))) /\ f1 (Tmp i) = None.
@@ -111,8 +132,8 @@ Print Assumptions C09_writer_save_complete.
 Example C09_save_nonvacuous :
   let flushes := [[83; 78]; [65; 78]] in
   let ops := save_ops [0; 1; 2]%nat (writer_chunks flushes) (writer_crc flushes) in
-  exists f', crash f_demo ops f' /\ f' (Content 0%nat) = Some (concat (writer_chunks flushes)) /\
-             f' (Content 1%nat) = Some [1] /\ f' (Content 2%nat) = Some [1] /\ length ops = 27%nat.
+  exists f', crash f_demo ops f' /\ f' (Content 0%nat) = Some (landed (writer_chunks flushes) 0%nat) /\
+             f' (Content 1%nat) = Some [1] /\ f' (Content 2%nat) = Some [1] /\ length ops = 25%nat.
 Proof. exact demo_crash_between_renames. Qed.
 
 (* --- rejection, for every loader of the shape LoaderModel.loader (GENERIC, see the header) ---------------- *)
